@@ -69,6 +69,10 @@ type (
 	}
 	// Auxer runs an auxiliary computation in a fresh process: `vh aux <prop> args...`, result on stdout.
 	Auxer interface{ Aux(args []string) int }
+	// RaceClassifier attributes a race report to a recorded finding (returns its key, or "").
+	RaceClassifier interface {
+		KnownRace(tier string, rb RaceReport) string
+	}
 	// Paralleler bounds the number of concurrent children.
 	Paralleler interface{ Parallel(tier string) int }
 )
@@ -551,6 +555,9 @@ func runChunk(p Property, bin string, race bool, tier string, seed int64, c *chu
 	res := chunkResult{crashedAt: -1}
 	if race {
 		res.races = ParseRaceLogs(racePrefix)
+		for i := range res.races {
+			res.races[i].From = c.from
+		}
 	}
 	tail := tailFile(out+".stderr", 6000)
 	res.stderrTail = tail
@@ -661,7 +668,21 @@ func report(p Property, tier string, seed int64, a *Aggregate, broken []string, 
 	sort.Slice(a.Violations, func(i, j int) bool { return a.Violations[i].Index < a.Violations[j].Index })
 	all := append([]ViolationRec{}, a.Crashes...)
 	all = append(all, a.Violations...)
+	kf, _ := LoadKnownFindings(filepath.Join(vdir, "known_findings.txt"))
 	for _, rb := range a.RaceBlocks {
+		if rc, ok := p.(RaceClassifier); ok && kf != nil {
+			if key := rc.KnownRace(tier, rb); key != "" && kf.Listed(id, key) {
+				if a.Known == nil {
+					a.Known = map[string]*KnownAgg{}
+				}
+				if cur := a.Known[key]; cur == nil {
+					a.Known[key] = &KnownAgg{Count: 1, Index: rb.From, First: "race report " + rb.Key}
+				} else {
+					cur.Count++
+				}
+				continue
+			}
+		}
 		all = append(all, ViolationRec{Index: -1, What: "DATA RACE reported by the race detector: " + rb.Key, Detail: rb.Text})
 	}
 	// de-duplicate race reports by key
